@@ -229,7 +229,9 @@ def bpoly_dev(obj, P, convex):
     import shapely.geometry as sg
     hull = sg.MultiPoint([(float(p[0]), float(p[1])) for p in np.concatenate(P)]).convex_hull
     bp = obj._boundingPolygon
-    return [float(bp.symmetric_difference(hull).area), float(hull.area)]
+    # (the overlay of two polygons with nearly coincident edges is not robust: compare each with the other grown by 1e-7)
+    eps = 1e-7
+    return [float(bp.difference(hull.buffer(eps)).area + hull.difference(bp.buffer(eps)).area), float(hull.area)]
 
 
 def run_pair(case):
